@@ -6,6 +6,7 @@ import (
 	"reflect"
 	"strings"
 	"sync"
+	"sync/atomic"
 	"time"
 
 	"verif/internal/adapt"
@@ -144,6 +145,7 @@ func runC04(r *core.Run) {
 	})
 	c04TypeSweeps(r)
 	c04StepBound(r)
+	c04DebugLogging(r)
 	r.Sample(map[string]any{"parser": "keys_and_cert.ReadKeysAndCert", "sweep": "signing code 0..65535 x crypto {0,4}; crypto code 0..65535 x signing {7,0}"})
 	r.Sample(map[string]any{"method": "(*router_address.RouterAddress).IntroducerHashString", "args": "int menu -1,0,1,2,16,2^31"})
 }
@@ -445,4 +447,47 @@ func c04FuncsFor(v any) []adapt.FuncInfo {
 		t = t.Elem()
 	}
 	return c04FuncIndex[t]
+}
+
+// c04DebugLogging: the second point of the two-element environment menu {silent (default), DEBUG_I2P=debug}.
+// "Returns normally" is a statement about the library, not about one logger configuration: code inside
+// `if log level >= debug` blocks, and the formatting of logged values (logrus formats fields while holding
+// its mutex, so a logged value whose String() method logs re-enters it and blocks forever), only run at
+// debug level. Every parser of the family on every base within one deviation (thorough: two) and every cut
+// of the default bases, every method of every accepted value - with the level raised and output discarded.
+// A call that does not return is caught by the watchdog and reported as C04|hang.
+func c04DebugLogging(r *core.Run) {
+	c20SetLogging(true)
+	defer c20SetLogging(false)
+	was, had := os.LookupEnv("VERIF_WORKERS")
+	os.Setenv("VERIF_WORKERS", "2") // logrus serialises messages behind one mutex
+	defer func() {
+		if had {
+			os.Setenv("VERIF_WORKERS", was)
+		} else {
+			os.Unsetenv("VERIF_WORKERS")
+		}
+	}()
+	o := enumOpts{BaseBound: 1, MutateBound: 0}
+	if !r.Quick() {
+		o = enumOpts{BaseBound: 2, MutateBound: 1}
+	}
+	var n int64
+	enumerateInputs(r, o, func(worker int, in *Input) {
+		if in.Class != "base" && in.Class != "cut" {
+			return
+		}
+		d := *in
+		d.Detail += " [debug logging enabled]"
+		for _, fam := range parserFamiliesFor(in.Family, in.Aux) {
+			for _, p := range adapt.ByFamily(fam) {
+				res, ok := c04Parse(r, worker, p, &d)
+				atomic.AddInt64(&n, 1)
+				if ok && res.OK && res.Val != nil && in.Class == "base" {
+					c04Methods(r, worker, p, &d, res.Val)
+				}
+			}
+		}
+	})
+	r.Note("debug_logging_pass_parses", n)
 }
